@@ -67,25 +67,39 @@ def validate_mutants(ctx):
     if os.environ.get('VERIF_REPO'):
         # we are ourselves running inside a mutant evaluation: do not recurse
         return
-    if not mine:
-        ctx.extra['checker_validation'] = {'mutants': 0}
-        return
-    out = os.path.join(facts.CACHE, 'mutant_results_%s_%d.json' % (ctx.prop, os.getpid()))
     env = dict(os.environ)
     env.pop('VERIF_EVIDENCE_DIR', None)
-    r = subprocess.run([sys.executable, os.path.join(facts.VERIF, 'tools', 'run_mutants.py'),
-                        '--prop', ctx.prop, '--json', out], capture_output=True, text=True, env=env)
-    results = json.load(open(out)) if os.path.exists(out) else []
-    if os.path.exists(out):
-        os.unlink(out)
-    ctx.extra['checker_validation'] = {
-        'mutants': len(mine),
-        'detected': sum(1 for x in results if x.get('detected')),
-        'results': [{'patch': x['patch'], 'detected': x['detected'],
-                     'keys': {p: v['keys'][:3] for p, v in x.get('results', {}).items()}}
-                    for x in results],
-    }
-    missed = [x['patch'] for x in results if not x.get('detected')]
-    if r.returncode != 0 or missed or len(results) != len(mine):
-        raise core.CheckerError('checker validation: seeded mutants not detected: %s\n%s'
-                                % (missed, r.stdout[-1500:]))
+    if not mine:
+        ctx.extra['checker_validation'] = {'mutants': 0}
+    else:
+        out = os.path.join(facts.CACHE, 'mutant_results_%s_%d.json' % (ctx.prop, os.getpid()))
+        r = subprocess.run([sys.executable, os.path.join(facts.VERIF, 'tools', 'run_mutants.py'),
+                            '--prop', ctx.prop, '--json', out], capture_output=True, text=True, env=env)
+        results = json.load(open(out)) if os.path.exists(out) else []
+        if os.path.exists(out):
+            os.unlink(out)
+        ctx.extra['checker_validation'] = {
+            'mutants': len(mine),
+            'detected': sum(1 for x in results if x.get('detected')),
+            'results': [{'patch': x['patch'], 'detected': x['detected'],
+                         'keys': {p: v['keys'][:3] for p, v in x.get('results', {}).items()}}
+                        for x in results],
+        }
+        missed = [x['patch'] for x in results if not x.get('detected')]
+        if r.returncode != 0 or missed or len(results) != len(mine):
+            raise core.CheckerError('checker validation: seeded mutants not detected: %s\n%s'
+                                    % (missed, r.stdout[-1500:]))
+    # silent side: behaviour-preserving variants that concern this property
+    out2 = os.path.join(facts.CACHE, 'equiv_results_%s_%d.json' % (ctx.prop, os.getpid()))
+    r2 = subprocess.run([sys.executable, os.path.join(facts.VERIF, 'tools', 'run_equivalents.py'),
+                         '--prop', ctx.prop, '--json', out2], capture_output=True, text=True, env=env)
+    eq = json.load(open(out2)) if os.path.exists(out2) else []
+    if os.path.exists(out2):
+        os.unlink(out2)
+    ctx.extra['checker_validation']['equivalent_variants'] = {
+        'run': len(eq), 'silent': sum(1 for x in eq if x.get('silent')),
+        'results': [{'patch': x['patch'], 'silent': x['silent']} for x in eq]}
+    loud = [x['patch'] for x in eq if not x.get('silent')]
+    if r2.returncode != 0 or loud:
+        raise core.CheckerError('checker validation: false alarm on behaviour-preserving variants: %s\n%s'
+                                % (loud, r2.stdout[-1500:]))
